@@ -3,7 +3,8 @@
 Engine VALX: every message / struct class of the shipped core definitions, of
 tests/test_msg_defs and of the generated VALX definition file x value profiles (all-zero,
 all-minimum, all-maximum, mixed, NaN / negative zero, special strings, 0x00 / 0xFF byte arrays)
-and, per field path, every value of the field's alphabet with all other fields zero x codecs
+and, per field path, every value of the field's alphabet with all other fields zero, and the same
+value assigned over an object filled with the maximum profile, x codecs
 {bytes/from_buffer_copy, to_dict/from_dict, to_json/from_json (pretty, minified),
 Message.to_json/from_json (header + data), copy}.
 
@@ -316,6 +317,18 @@ def work(item) -> Dict[str, Any]:
                         continue
                     counters["objects"] = counters.get("objects", 0) + 1
                     check_obj(obj, f"{which}.{n}.{'.'.join(map(str, path))}={v!r:.40}", problems, counters, is_msg and len(bytes(obj)) < 4096)
+                    # the same value assigned over an earlier one (every field at its maximum first): a value reached by two
+                    # assignments is as constructible as one reached by one
+                    obj = cls()
+                    try:
+                        fill(obj, "max")
+                        set_path(obj, path, v)
+                    except Exception as e:
+                        problems.append({"kind": "value-not-constructible", "what": f"{which}.{n}.{path}={v!r:.40} over max", "exc": type(e).__name__})
+                        continue
+                    counters["objects"] = counters.get("objects", 0) + 1
+                    check_obj(obj, f"{which}.{n}.{'.'.join(map(str, path))}={v!r:.40} assigned over the maximum profile", problems, counters,
+                              is_msg and len(bytes(obj)) < 4096)
     return {"problems": problems, "counters": counters}
 
 
